@@ -246,12 +246,16 @@ def run(chk):
         "two faults in one call (e.g. (/ 0 0 #t)) may be reported as either kind",
         "'the interpreter keeps the effects completed before the error and evaluates later forms normally' is a whole-program statement: outside (only the units' own error paths are covered)",
     ]
+    chk.run_probes("procedure shapes", skel.shape_probe_selfcheck, chk.ws.runner("dev"), 6 * len(skel.SHAPES))
     chk.step("arity", spec_arity, chk, K)
     from .c01_parts import spec_apply_scheme, spec_eval_expression
     chk.step("binding loop", spec_apply_scheme, chk, "", ("nopanic",))
     chk.step("expect_*", spec_expect, chk)
     chk.step("builtin argument types", spec_builtin_types, chk, 3)
     chk.step("operator / unbound variable", spec_eval_expression, chk, ("errors",))
+    from .c01_parts import spec_definition, eval_probe, EVAL_PROBES
+    chk.run_probes("evaluator", eval_probe, chk.ws.runner("dev"), len(EVAL_PROBES))
+    chk.step("a failing definition binds nothing", spec_definition, chk)
     # vector bounds / literal mutation / unbound assignment / exact division by zero: the same obligations as in C03 and C09
     from . import c03, c09
     chk.step("vector index and mutability", c03.spec_vector_set, chk, L, "clone")
